@@ -570,7 +570,22 @@ def translate(repo):
             sub = {}
             for (pn, kind), a in zip(b["params"], arm["args"]):
                 sub[pn] = a
-            items = subst_items(b["items"], sub)
+            if arm.get("repeat"):
+                # one call per element of the list parameter that is passed (bare) to the repeated call
+                lists = [n for n, k in arm["params"] if k == "ql" and ("sym", n) in arm["args"]]
+                if len(lists) != 1:
+                    problems.append("macro arm %s: repeated call does not range over exactly one list argument" % arm["text"]); continue
+                var = ("sym", "%" + lists[0])
+                for pn in sub:
+                    if sub[pn] == ("sym", lists[0]): sub[pn] = var
+                try:
+                    one = subst_items(b["items"], sub)
+                    if any(it[0] != "one" for it in one): raise Untranslatable("repeated call of a method that loops itself")
+                    items = [("each", ("slist", lists[0]), var, it[1]) for it in one]
+                except Untranslatable as ex:
+                    problems.append("macro arm %s: %s" % (arm["text"], ex)); items = None
+            else:
+                items = subst_items(b["items"], sub)
         entries.append(dict(surface="macro", name=arm["name"], params=arm["params"], items=items, arm=arm))
     return entries, problems, docs
 
@@ -599,6 +614,9 @@ def subst_items(items, sub, ren=None):
 
 ARM = re.compile(r"^\(\s*\$builder:ident,\s*(\w+)\((.*)\)(,\s*\$\(\$rest:tt\)\*)?\s*\)\s*=>\s*\{\s*\$builder\.(\w+)\((.*?)\)(\.unwrap\(\))?;\s*(\$crate::circuit_internal!\(\$builder, \$\(\$rest\)\*\);)?\s*\};$")
 
+# an arm whose body repeats one builder call per element of a list argument:  $($builder.method(.., $xs, ..);)*
+ARM_REP = re.compile(r"^\(\s*\$builder:ident,\s*(\w+)\((.*)\)(,\s*\$\(\$rest:tt\)\*)?\s*\)\s*=>\s*\{\s*\$\(\s*\$builder\.(\w+)\((.*?)\)(\.unwrap\(\))?;\s*\)\*\s*(\$crate::circuit_internal!\(\$builder, \$\(\$rest\)\*\);)?\s*\};$")
+
 def macro_arms(repo):
     text = open(os.path.join(repo, "src/macros.rs")).read()
     arms, problems = [], []
@@ -607,6 +625,9 @@ def macro_arms(repo):
         l = line.strip()
         if not l.startswith("($builder:ident, ") or l.startswith("($builder:ident,) ") or "$bad_token" in l: continue
         m = ARM.match(l)
+        repeat = False
+        if not m:
+            m = ARM_REP.match(l); repeat = True
         if not m:
             problems.append("macro arm not understood: %s" % l[:80]); continue
         name, pat, trailing, method, args, unwrap, rec = m.groups()
@@ -632,7 +653,7 @@ def macro_arms(repo):
             elif m1: avals.append(("llit", [("sym", m1.group(1))]))
             elif ms: avals.append(("sym", ms.group(1)))
             else: avals.append(("other", a))
-        arms.append(dict(name=name, params=params, method=method, args=avals, trailing=bool(trailing), text="%s(%s)" % (name, pat)))
+        arms.append(dict(name=name, params=params, method=method, args=avals, trailing=bool(trailing), text="%s(%s)" % (name, pat), repeat=repeat))
     # the rustdoc bullet list of forms: - `name(arg, arg)` or `name([args], [args])`
     docs = {}
     for m in re.finditer(r"^///\s*-\s*(.*)$", text[:start], re.M):
@@ -878,8 +899,10 @@ def gen_rust(entries):
             else:
                 calls.append("    { let mut b = CircuitBuilder::new(N); b.%s(%s); emit_builder(%d, p, &st, Ok(()), &mut b); }" % (name, args, i))
         elif s == "macro":
-            inv = "%s(%s)%s" % (name, args, ", x(0)" if e["arm"]["trailing"] else "")          # a non-final arm must go on to the rest
-            calls.append("    emit_circuit(%d, p, &st, circuit!(qubits: N, %s));" % (i, inv))
+            # every argument expression is written as ev(..), which counts its evaluations: a macro form evaluates what it is given once
+            margs = ", ".join(("[%s]" % ", ".join("ev(%s)" % x for x in v)) if k == "ql" else "ev(%s)" % v for v, (_, k) in zip(vals, e["params"]))
+            inv = "%s(%s)%s" % (name, margs, ", x(0)" if e["arm"]["trailing"] else "")          # a non-final arm must go on to the rest
+            calls.append("    { reset_evals(); let c = circuit!(qubits: N, %s); emit_macro(%d, p, &st, c); }" % (inv, i))
     # operate: every operator, plain and with the controls of the controlled forms
     oper = []
     for op, ctor in OP_CTOR.items():
@@ -928,6 +951,15 @@ fn emit_state(i: usize, p: usize, r: Result<State, Error>) {
 }
 fn emit_circuit(i: usize, p: usize, st: &State, c: Result<Circuit, Error>) {
     emit_state(i, p, c.and_then(|c| c.execute(st)));
+}
+thread_local! { static EVALS: std::cell::Cell<usize> = std::cell::Cell::new(0); }
+fn ev<T>(x: T) -> T { EVALS.with(|c| c.set(c.get() + 1)); x }
+fn reset_evals() { EVALS.with(|c| c.set(0)); }
+fn emit_macro(i: usize, p: usize, st: &State, c: Result<Circuit, Error>) {
+    let evals = EVALS.with(|c| c.get());
+    match c.and_then(|c| c.execute(st)) {
+        Ok(s) => println!("{}", json!({"i": i, "p": p, "r": "ok", "v": vjson(&s.state_vector), "evals": evals})),
+        Err(e) => println!("{}", json!({"i": i, "p": p, "r": "err", "e": format!("{:?}", e), "evals": evals})) }
 }
 fn emit_gates(i: usize, p: usize, st: &State, g: Result<Vec<Gate>, Error>) {
     emit_circuit(i, p, st, g.and_then(|gs| Circuit::with_gates(gs, N)));
